@@ -82,7 +82,7 @@ def run(ctx):
         open(gpath, "w").write(rp.get("grammar", ""))
         args += ["--replay", gpath]
     else:
-        args += ["--n", ctx.vol(15000, 200000)]
+        args += ["--n", ctx.vol(12000, 200000)]
     rc, out, err = ctx.run_harness(exe, args, timeout=7200)
     if rc != 0:
         ctx.fatal("harness lrverdict failed: " + err[-500:])
